@@ -374,6 +374,14 @@ def rule_v(idx: ProgramIndex, rep: Report, records: Dict[str, CtorRecord]):
             users = classes_resolving_to(fn)
             # the set of functions to inspect: the method and its nested helpers
             scopes = [fn] + [f for f in idx.functions if f.parent is fn]
+            # ... and the private methods of self it calls (a shared `_to_args_and_kwargs`-style helper holds the loop)
+            for x in walk_body(fn):
+                if isinstance(x, ast.Call) and isinstance(x.func, ast.Attribute) and isinstance(x.func.value, ast.Name) \
+                        and x.func.value.id == "self" and x.func.attr.startswith("_") and x.func.attr not in ("_to_helper",):
+                    hm = idx.resolve_method(c, x.func.attr)
+                    if hm is not None and hm not in scopes and not hm.is_property():
+                        scopes.append(hm)
+                        scopes += [f for f in idx.functions if f.parent is hm]
             # iteration variables over self._args / self._kwargs
             for sc in scopes:
                 for n in walk_body(sc):
